@@ -212,3 +212,35 @@ def calls (who : Nat → Nat) (ty bty : Ty) (n r : Nat) : List Call :=
   [.allgather, .allreduce] ++ (proj who r (events n)).flatMap (actCalls ty) ++ (bcastSeq bty).map (Call.bcast (who 0))
 
 end NiftyVerif.Allreduce
+
+/-!
+### The collective used for type detection: `dtype = comm.allreduce([type(x) for x in vals if x is not None])`
+
+mpi4py reduces Python objects with `+` (here: list concatenation, which is NOT commutative) in an order that depends on
+the MPI library's reduction tree.  The code only uses `list(set(dtype))` and asserts `len(...) == 1`, so the order cannot
+matter; the model makes this explicit: a reduction tree over the ranks' lists in any shape and any rank order.
+-/
+namespace NiftyVerif.Allreduce
+
+/-- an arbitrary reduction order: a binary tree whose leaves name ranks -/
+inductive RTree where
+  | leaf (r : Nat)
+  | node (l r : RTree)
+deriving Repr
+
+def RTree.leavesOf : RTree → List Nat
+  | .leaf r => [r]
+  | .node l r => l.leavesOf ++ r.leavesOf
+
+/-- reduce the per-rank lists `ls` with `+` = concatenation along the tree -/
+def RTree.reduce {α} (ls : Nat → List α) : RTree → List α
+  | .leaf r => ls r
+  | .node l r => l.reduce ls ++ r.reduce ls
+
+/-- `len(set(dtype)) == 1` : all entries equal and at least one entry -/
+def uniqueType {α} [DecidableEq α] (l : List α) : Option α :=
+  match l with
+  | [] => none
+  | a :: rest => if rest.all (fun b => decide (b = a)) then some a else none
+
+end NiftyVerif.Allreduce
